@@ -79,29 +79,40 @@ Section Link.
   Definition sel_origin (ax : bool) (n order : nat) (o : option Q) : option Z :=
     if ax then option_map (whole_origin n order) o else None.
 
-  (* with order = 0, or with integral origin components (any order), set_center
-     is the whole-pixel translation set_center_int applied to the preprocessed
-     origin of the selected axes *)
-  Theorem set_center_whole_pixel (data : img) or0 or1 cr ax0 ax1 order :
-    order = 0 \/ (is_integral or0 /\ is_integral or1) ->
+  (* with order = 0, or with integral origin components on the centred axes
+     (any order), set_center is the whole-pixel translation set_center_int
+     applied to the preprocessed origin of the selected axes; the origin
+     component of an axis that is not selected is not looked at *)
+  Theorem set_center_whole_pixel (data : img) (or0 or1 : option Q) cr (ax0 ax1 : bool) order :
+    order = 0 \/ (is_integral (if ax0 then or0 else @None Q) /\ is_integral (if ax1 then or1 else @None Q)) ->
     set_center data or0 or1 cr ax0 ax1 order =
     of_opt (set_center_int zero data (sel_origin ax0 (nrows data) order or0)
                            (sel_origin ax1 (ncols data) order or1) cr).
   Proof.
     intros H. unfold set_center, Center.set_center.
     assert (W : Nat.eqb order 0 ||
-                (Qeq_bool match option_map (prep_axis (nrows data) order) or0 with
+                (Qeq_bool match (if ax0 then option_map (prep_axis (nrows data) order) or0 else None) with
                           | Some (_, s) => s | None => 0%Q end 0 &&
-                 Qeq_bool match option_map (prep_axis (ncols data) order) or1 with
+                 Qeq_bool match (if ax1 then option_map (prep_axis (ncols data) order) or1 else None) with
                           | Some (_, s) => s | None => 0%Q end 0) = true).
     { destruct H as [->|[I0 I1]]; [reflexivity|]. apply orb_true_iff; right.
       apply andb_true_iff; split.
-      - destruct or0 as [q|]; [|reflexivity]. destruct I0 as [k ->]. cbn [option_map].
-        rewrite prep_axis_int. reflexivity.
-      - destruct or1 as [q|]; [|reflexivity]. destruct I1 as [k ->]. cbn [option_map].
-        rewrite prep_axis_int. reflexivity. }
+      - destruct ax0; [|reflexivity]. destruct or0 as [q|]; [|reflexivity]. destruct I0 as [k ->].
+        cbn [option_map]. rewrite prep_axis_int. reflexivity.
+      - destruct ax1; [|reflexivity]. destruct or1 as [q|]; [|reflexivity]. destruct I1 as [k ->].
+        cbn [option_map]. rewrite prep_axis_int. reflexivity. }
     rewrite W. unfold of_opt, sel_origin, whole_origin.
     destruct or0, or1, ax0, ax1; reflexivity.
+  Qed.
+
+  (* the origin coordinate of an axis that is not in axes is ignored, whatever
+     its value (fractional or not), for every order and crop mode *)
+  Theorem unselected_origin_ignored (data : img) or0 or1 or0' or1' cr ax0 ax1 order :
+    (ax0 = true -> or0 = or0') -> (ax1 = true -> or1 = or1') ->
+    set_center data or0 or1 cr ax0 ax1 order = set_center data or0' or1' cr ax0 ax1 order.
+  Proof.
+    intros H0 H1. unfold set_center, Center.set_center.
+    destruct ax0, ax1; try rewrite (H0 eq_refl); try rewrite (H1 eq_refl); reflexivity.
   Qed.
 
   (* negative origins count from the end: origin k and origin k + len give the
